@@ -159,10 +159,22 @@ pub struct SeqResult {
     pub reloads_ok: u64,
     pub reloads_err: u64,
     pub handshakes: u64,
+    pub listener_handshakes: u64,
 }
 
-pub async fn run_sequence(pairs: &[Pair], steps: &[Step], check_expiry: bool, tag: &str) -> SeqResult {
-    let mut res = SeqResult { problems: Vec::new(), reloads_ok: 0, reloads_err: 0, handshakes: 0 };
+/// handshake with the real `Server::listen` loop (reloadable TLS) over loopback TCP; returns the presented leaf DER
+async fn handshake_listener(addr: &str) -> Result<Vec<u8>, String> {
+    let rec = Arc::new(Recorder { seen: Mutex::new(None) });
+    let cfg = rustls::ClientConfig::builder().dangerous().with_custom_certificate_verifier(rec.clone()).with_no_client_auth();
+    let connector = tokio_rustls::TlsConnector::from(Arc::new(cfg));
+    let tcp = tokio::net::TcpStream::connect(addr).await.map_err(|e| format!("connect: {e}"))?;
+    let name = ServerName::try_from("localhost").map_err(|e| e.to_string())?;
+    let _c = tokio::time::timeout(std::time::Duration::from_secs(10), connector.connect(name, tcp)).await.map_err(|_| "handshake timeout".to_string())?.map_err(|e| format!("client handshake: {e}"))?;
+    rec.seen.lock().unwrap().clone().ok_or("no certificate presented".into())
+}
+
+pub async fn run_sequence(pairs: &[Pair], steps: &[Step], check_expiry: bool, tag: &str, via_listener: bool) -> SeqResult {
+    let mut res = SeqResult { problems: Vec::new(), reloads_ok: 0, reloads_err: 0, handshakes: 0, listener_handshakes: 0 };
     let dir = std::env::temp_dir().join(format!("verif-c18-{}-{}", std::process::id(), tag));
     let _ = std::fs::remove_dir_all(&dir);
     std::fs::create_dir_all(&dir).expect("tmp dir");
@@ -180,6 +192,22 @@ pub async fn run_sequence(pairs: &[Pair], steps: &[Step], check_expiry: bool, ta
     };
     let mut active = 0usize;
     let mut count = 0u64;
+    // optionally: the real accept loop of a Server built on this reloader
+    let mut listener: Option<(String, tokio::task::JoinHandle<()>)> = None;
+    if via_listener {
+        let addr = format!("127.0.0.1:{}", crate::netkit::free_port());
+        let server = Arc::new(anytls_rs::server::Server::new_with_reloadable_tls("c18", reloader.get_acceptor_ref(), crate::engine::default_padding(), None));
+        let a2 = addr.clone();
+        let h = tokio::spawn(async move {
+            let _ = server.listen(&a2).await;
+        });
+        if crate::netkit::wait_listening(&addr).await {
+            listener = Some((addr, h));
+        } else {
+            h.abort();
+            res.problems.push(("setup".into(), "listener_did_not_start".into(), addr));
+        }
+    }
     // a connection established before everything else must keep working
     let (_, mut old_c, mut old_s) = match handshake(&reloader).await {
         Ok(x) => x,
@@ -242,6 +270,19 @@ pub async fn run_sequence(pairs: &[Pair], steps: &[Step], check_expiry: bool, ta
             }
             Err(e) => res.problems.push(("handshake".into(), "handshake_failed".into(), format!("{what}: {e}"))),
         }
+        // ... and the very next connection accepted by the server's listen loop
+        if let Some((addr, _)) = &listener {
+            match handshake_listener(addr).await {
+                Ok(der) => {
+                    res.listener_handshakes += 1;
+                    if der != pairs[active].der {
+                        let got = pairs.iter().find(|p| p.der == der).map(|p| p.name).unwrap_or("an unknown certificate");
+                        res.problems.push(("listener_handshake".into(), "wrong_certificate_presented".into(), format!("{what}: the next connection accepted by Server::listen is served with {got}, the active pair is {}", pairs[active].name)));
+                    }
+                }
+                Err(e) => res.problems.push(("listener_handshake".into(), "handshake_failed".into(), format!("{what}: {e}"))),
+            }
+        }
         if reloader.get_reload_count() != count {
             res.problems.push(("reload".into(), "reload_count_wrong".into(), format!("{what}: get_reload_count()={} but {count} reloads succeeded", reloader.get_reload_count())));
             count = reloader.get_reload_count();
@@ -265,6 +306,9 @@ pub async fn run_sequence(pairs: &[Pair], steps: &[Step], check_expiry: bool, ta
             res.problems.push(("established_session".into(), "old_connection_disturbed".into(), format!("{what}: a TLS connection established before the reloads stopped carrying data")));
             break;
         }
+    }
+    if let Some((_, h)) = listener {
+        h.abort();
     }
     let _ = std::fs::remove_dir_all(&dir);
     res
@@ -368,11 +412,13 @@ pub fn run(ctx: Ctx) -> Report {
                 continue;
             }
             run::case_begin(&format!("C18 sequence {i}"));
-            let r = rt.block_on(run_sequence(&pairs, steps, *expiry, &format!("{shard}-{i}")));
+            // the hand-written update sequences and every third other one also go through a real listen loop
+            let r = rt.block_on(run_sequence(&pairs, steps, *expiry, &format!("{shard}-{i}"), i < 39 || i % 3 == 0));
             rep.case(Some(hash_str(&describe(steps, *expiry).to_string())));
             rep.add("reloads_succeeded", r.reloads_ok);
             rep.add("reloads_failed_as_they_must", r.reloads_err);
             rep.add("handshakes_inspected", r.handshakes);
+            rep.add("listener_handshakes_inspected", r.listener_handshakes);
             rep.add("steps", steps.len() as u64);
             if rep.samples.len() < 3 && shard == 0 {
                 rep.sample(describe(&steps[..steps.len().min(10)], *expiry));
@@ -455,7 +501,7 @@ pub fn meta() -> CheckMeta {
         level: "fault_enumeration",
         rule: "on-disk fault states of the certificate/key files driven against the real CertReloader (rcgen pairs A, B, C and an expired E): two-file updates with a reload between every pair of writes in both orders, each file replaced alone by another pair's file / garbage / empty / missing / the other kind of file, truncation prefixes of the new certificate and of the new key (quick: 64+32 evenly spaced cuts plus both sides of every line boundary and the last bytes; thorough: every byte) with a reload at each, random 20-200 step sequences, check_expiry on/off; thorough adds a thread rewriting both files while reloads run. After EVERY step an in-memory TLS handshake against get_acceptor() records the presented leaf; oracle: reload() is Ok iff the files hold a complete, matching (and, with check_expiry, unexpired) pair as known by construction; after Err the presented leaf, cert info, last-reload instant and reload count are unchanged; after Ok the leaf is the pair on disk; a TLS connection established at the start answers a ping after every step. distinct_nontrivial = distinct step sequences.".into(),
         assumptions: vec!["a file counts as complete when the whole PEM block is present (a missing final newline does not matter)".into(), "rcgen/rustls generate and verify the pairs".into()],
-        floors: vec![("reloads_succeeded", 50), ("reloads_failed_as_they_must", 150), ("handshakes_inspected", 500)],
+        floors: vec![("reloads_succeeded", 50), ("reloads_failed_as_they_must", 150), ("handshakes_inspected", 500), ("listener_handshakes_inspected", 300)],
         exhaustive: false,
     }
 }
